@@ -23,7 +23,13 @@ BR = list("()[]{}")
 TEMPLATES = [("void f(void) { x = a %s ; }", " "), ("void f(void) { x = a %s ; }", " a "),
              ("int x %s ;", " "), ("int x %s ;", " 3 "), ("void f(void) { %s }", " "), ("void f(void) { %s }", " ; "),
              # inside a parenthesised declarator, where the parser looks ahead for the declared name
-             ("int ( * x %s ) ( void ) ;", " "), ("void f ( int ( * %s ) ( int ) ) ;", " "), ("int ( * %s x ) [ 2 ] ;", " ")]
+             ("int ( * x %s ) ( void ) ;", " "), ("void f ( int ( * %s ) ( int ) ) ;", " "), ("int ( * %s x ) [ 2 ] ;", " "),
+             # directly after a #pragma line (with and without a backslash at its end - pragma text is free-form, the NEXT
+             # line is not) and after the _Pragma operator
+             ("void f(void) {\n#pragma omp parallel \\\n %s \n ; }", " "), ("void f(void) {\n#pragma omp parallel\n %s \n ; }", " "),
+             ("#pragma once \\\nint x %s ;", " "), ("void f(void) { _Pragma(\"omp\") %s ; }", " ")]
+PRAGMA_HOSTS = ["void f(void) {\n#pragma omp parallel \\\n x = 1 %s ;\n}\n", "#pragma pack(1) \\\nint x %s;\n",
+                "void f(void) {\n#pragma p\\\n%s\n}\n", "#pragma p \\\n#pragma q \\\n int y; %s\n"]
 # text after the line number / file name / flags of a line directive, on the directive's own line
 DIRHEADS = ['# 3 "f.c" ', '#line 3 "f.c" ', '# 3 "f.c" 1 2 ', '# 3 ', '#line 3 ', '  #  3  "f.c"  1  ']
 DIRTAILS = ["@", "`", "\\", "/*", "//", "/* c */", "#define X 1", "x", ")", "}", "1 @", "1.5", "-1", "'a'", "int y;", "1 \"g\""]
@@ -140,7 +146,7 @@ def injectable(vals):
 def run(tier):
     ctx = Ctx("C18", tier, "model_checking")
     rnd = random.Random(ctx.seed)
-    ctx.cov["rule"] = ("unbalanced bracket strings (TLC, Brackets.tla) in 6 templates; single-bracket deletions, duplications "
+    ctx.cov["rule"] = ("unbalanced bracket strings (TLC, Brackets.tla) in 13 templates; single-bracket deletions, duplications "
                        "and kind swaps plus single-position injections of non-token text and foreign directives into "
                        "programs derived by TLC (CGram.tla) and into the corpus; MustReject token sequences (TokSeq.tla); a "
                        "case is one malformed text that has to be rejected")
@@ -161,6 +167,20 @@ def run(tier):
     nunb = sum(1 for e in ex if not e["bal"])
     ctx.count(n, nontrivial=nunb, traces=n)
     ctx.note("population_bracket_strings", dict(strings=len(ex), unbalanced=nunb, embedded_texts=n))
+    # non-token text / foreign directives on the line after a #pragma line that ends in a backslash
+    npr = 0
+    for host in PRAGMA_HOSTS:
+        for nt in NONTOKENS + ["'", '"', "/* c */ ", "\n#define X 1 \\\n 2\n"]:
+            src = host % nt
+            npr += 1
+            k, d = classify(src, "f.c", check_loc=False)
+            if k == "ok":
+                ctx.fail("accepted non-token text after a pragma line :: " + repr(src)[:120], dict(kind="text", text=src))
+            elif k.startswith("bad"):
+                ctx.fail("non-token text after a pragma line not rejected with ParseError: %s %s :: %s" % (k, d, repr(src)[:100]),
+                         dict(kind="text", text=src))
+    ctx.count(npr, nontrivial=npr, traces=npr)
+    ctx.note("population_after_pragma_line", npr)
     # mutants of derived programs and of the corpus
     progs = [e["toks"] for e in c01.derive(ctx, "CGram fuel<=2", 2)]
     progs = rnd.sample(progs, 2500 if tier == "quick" else len(progs))
